@@ -102,15 +102,47 @@ def arbitrary(rng):
     return rng.choice(('\n', '\r\n')).join(rng.choice(pieces) for _ in range(rng.randint(0, 10)))
 
 
+OBS_TIMEOUT = 10.0
+
+
+class Worker(object):
+    """remove_signature runs in a child process so that a run-away regular-expression match can be
+    killed: the observation is then the pseudo-exception Timeout (a violation of the time clause)"""
+
+    def __init__(self):
+        self.p = None
+
+    def start(self):
+        src = os.path.join(os.environ.get('VERIF_REPO', '/repo'), 'src')
+        self.p = subprocess.Popen([sys.executable, os.path.join(os.path.dirname(os.path.dirname(os.path.abspath(__file__))), 'c16_worker.py'), src],
+                                  stdin=subprocess.PIPE, stdout=subprocess.PIPE)
+
+    def ask(self, text):
+        import select
+        if self.p is None or self.p.poll() is not None:
+            self.start()
+        self.p.stdin.write((text.encode('utf-8').hex() + '\n').encode('ascii'))
+        self.p.stdin.flush()
+        r, _, _ = select.select([self.p.stdout], [], [], OBS_TIMEOUT)
+        if not r:
+            self.p.kill()
+            self.p.wait()
+            self.p = None
+            return Exc('Timeout')
+        line = self.p.stdout.readline().decode('ascii').strip()
+        if line == 'N':
+            return None
+        if line.startswith('S'):
+            return bytes.fromhex(line[1:]).decode('utf-8')
+        return Exc(line[1:] or 'WorkerDied')
+
+
+WORKER = Worker()
+
+
 def observe(op, inp):
     text = inp[8] if op == 'C16w' else inp
-    try:
-        r = unsign.remove_signature(text)
-    except Exception as e:
-        return Exc(type(e).__name__)
-    if r is None or isinstance(r, str):
-        return r
-    return Exc('NotAString')
+    return WORKER.ask(text)
 
 
 def nontrivial(op, inp, obs):
